@@ -537,7 +537,7 @@ func (s *State) evalBuiltin(node *ast.Builtin) object.Object {
 	}
 	var val object.Object
 	var rt object.Type
-	if minV > 0 {
+	if minV > 0 && !varArg { // print, log and error evaluate all their arguments themselves (once).
 		val = s.evalInternal(node.Parameters[0])
 		rt = val.Type()
 		if rt == object.ERROR && t != token.LOG && t != token.CATCH { // log can log (and thus catch) errors.
